@@ -121,9 +121,9 @@ func zeroAll(u *sym.Term) map[*sym.Atom]*sym.Term {
 }
 
 type gammaPath struct {
-	pure   map[string]bool   // guards that mention only a, x and constants: text -> outcome
-	guards string            // the same, sorted and joined
-	data   map[string]bool   // data-dependent guards (mention an evaluation routine): text -> outcome
+	pure   map[string]bool // guards that mention only a, x and constants: text -> outcome
+	guards string          // the same, sorted and joined
+	data   map[string]bool // data-dependent guards (mention an evaluation routine): text -> outcome
 	ret    *sym.Term
 	text   string
 }
